@@ -33,6 +33,9 @@ func newCombineNode(et *ExecutingTask, n *pipeline.CombineNode, d NodeDiagnostic
 	cn.expressions = make([]stateful.Expression, len(n.Lambdas))
 	cn.scopePools = make([]stateful.ScopePool, len(n.Lambdas))
 	for i, lambda := range n.Lambdas {
+		if lambda == nil {
+			return nil, fmt.Errorf("nil expression %d passed to node", i)
+		}
 		statefulExpr, err := stateful.NewExpression(lambda.Expression)
 		if err != nil {
 			return nil, fmt.Errorf("Failed to compile %v expression: %v", i, err)
